@@ -14,6 +14,7 @@ This private submodule is *not* intended for importation by downstream callers.
 # ....................{ IMPORTS                            }....................
 from beartype.door._cls.doorsuper import TypeHint
 from beartype.door._cls.doorhint import TupleTypeHints
+from beartype.typing import Any
 
 # ....................{ SUBCLASSES                         }....................
 class LiteralTypeHint(TypeHint):
@@ -45,41 +46,67 @@ class LiteralTypeHint(TypeHint):
     # ..................{ PRIVATE ~ testers                  }..................
     def _is_subhint(self, other: TypeHint) -> bool:
 
-        # If the passed hint is also a literal, return true only if the set of
-        # all child hints subscripting this literal is a subset of the set of
-        # all child hints subscripting that literal.
+        # If the passed hint is also a literal, return true only if each child
+        # object subscripting this literal also subscripts that literal.
         if isinstance(other, LiteralTypeHint):
-            return all(self_arg in other._args for self_arg in self._args)
+            return all(
+                _is_literal_child_in(self_arg, other._args)
+                for self_arg in self._args
+            )
         # Else, the passed hint is *NOT* also a literal.
 
-        # Return true only if either...
-        return (
-            # The class of each child hint subscripting this literal is a
-            # subhint (e.g., subclass) of the passed hint *OR*...
-            #
-            # Note that, unlike most type hints, each child hints subscripting
-            # this literal is typically *NOT* a valid type hint in and of itself
-            # (e.g., "Literal[True]" is a valid type hint, but "True" is not).
-            # This test *CANNOT* be reduced to the simpler and sensible variant:
-            #     return all(
-            #         hint_child.is_subhint(other)
-            #         for hint_child in self._args_wrapped_tuple
-            #     )
-            all(
-                TypeHint(type(literal_child)).is_subhint(other)  # pyright: ignore
-                for literal_child in self._args
-            ) or
-            # Else, the class of one or more child hints subscripting this
-            # literal is *NOT* a subhint (e.g., subclass) of the passed hint.
-            #
-            # Defer to the superclass implementation of this method. Why?
-            # Because this literal could still be a subhint of passed hint
-            # according to standard typing semantics. Notably, this literal
-            # could be a child type hint and thus a subhint of the passed type
-            # hint - despite failing all of the above literal-specific subhint
-            # tests: e.g.,
-            #     # The call below handles this surprisingly common edge case.
-            #     >>> Literal[True] <= Union[Literal[True], Literal[False]]
-            #     True
-            super()._is_subhint(other)
+        # Return true only if each child object subscripting this literal is
+        # accepted by at least one branch of the passed hint (i.e., that hint
+        # itself if that hint is *NOT* a union). A child object is accepted by
+        # a branch if that branch is either:
+        # * The "typing.Any" catch-all.
+        # * A literal also subscripted by that object: e.g.,
+        #       >>> Literal[True] <= Union[Literal[True], Literal[False]]
+        #       True
+        # * A superhint of the class of that object: e.g.,
+        #       >>> Literal[7, "3"] <= Union[int, str]
+        #       True
+        #
+        # Note that each child object must be tested individually. A literal
+        # subscripted by two or more objects is *NOT* a subhint of a union
+        # merely because that union contains some other literal: e.g.,
+        #     >>> Literal[1, "a"] <= Optional[Literal[1]]
+        #     False
+        return all(
+            any(
+                (
+                    other_branch._hint is Any or
+                    (
+                        _is_literal_child_in(self_arg, other_branch._args)
+                        if isinstance(other_branch, LiteralTypeHint) else
+                        TypeHint(type(self_arg)).is_subhint(other_branch)  # pyright: ignore
+                    )
+                )
+                for other_branch in other._branches
+            )
+            for self_arg in self._args
         )
+
+# ....................{ PRIVATE ~ testers                  }....................
+def _is_literal_child_in(literal_child: object, literal_children: tuple) -> bool:
+    '''
+    :data:`True` only if the passed object subscripting one literal also
+    subscripts another literal subscripted by the passed tuple of objects.
+
+    :pep:`586` defines two literal objects to be the same only if both their
+    types *and* values are equal. Equality alone does *not* suffice; the
+    :class:`bool` ``True`` is equal to but differs from the :class:`int` ``1``
+    and an object satisfying ``Literal[1]`` violates ``Literal[True]``: e.g.,
+
+    .. code-block:: pycon
+
+       >>> from beartype.door import is_bearable
+       >>> is_bearable(1, Literal[True])
+       False
+    '''
+
+    return any(
+        type(literal_child) is type(other_child) and
+        literal_child == other_child
+        for other_child in literal_children
+    )
